@@ -146,6 +146,18 @@ func init() {
 		e.shapeDef(s, eng, "engine.use", "engineUseShape")
 		e.shapeDef(s, eng, "engine.addRoutes", "engineAddRoutesShape")
 		e.shapeDef(s, eng, "convertMiddleware", "convertMiddlewareShape")
+
+		// ---- round 5: the decrypters of a route group, the delegating constructors
+		c18KeyLoop(s, e, eng, "engine.signatureVerifier", "svLoadDecrypters", "svGateMap")
+		c18CallArgs(s, e, csh, "ContentSecurityHandler", "LimitContentSecurityHandler", "contentSecurityWrapperArgs")
+		c18CallArgs(s, e, sec, "ParseContentSecurity", "decrypter.DecryptBase64", "decryptBase64Args")
+		c18CallArgs(s, e, sec, "ParseContentSecurity", "httpx.ParseHeader", "parseHeaderArgs")
+		c18CallArgs(s, e, csh, "LimitContentSecurityHandler", "security.ParseContentSecurity", "parseContentSecurityArgs")
+		c18CallArgs(s, e, hm, "HmacBase64", "Hmac", "hmacCallArgs")
+		c18CallArgs(s, e, hm, "Hmac", "io.WriteString", "hmacWriteArgs")
+		c18ClosureAssigns(s, e, auth, "WithPrevSecret", "withPrevSecretAssigns")
+		c18ClosureAssigns(s, e, auth, "WithUnauthorizedCallback", "authWithCallbackAssigns")
+		c18ClosureAssigns(s, e, srv, "WithUnsignedCallback", "withUnsignedCallbackCalls")
 	})
 }
 
@@ -689,4 +701,128 @@ func c18VerifierKind(s *source, e *emitter, rel, fn, lean string) {
 		return
 	}
 	e.printf("/-- the decision list of `%s` (%s) -/\ndef %s (enabled : Bool) (nkeys : Int) (strict : Bool) : String :=\n  %s\n\n", fn, rel, lean, body)
+}
+
+// ---- round 5 helpers ----
+
+// c18KeyLoop translates the key loading of signatureVerifier into a Lean function of the loader and the group's key list:
+//   m := make(map[string]codec.RsaDecrypter)            a map made fresh for this call
+//   for _, key := range signature.PrivateKeys {          the GROUP's own keys, in order
+//       [a := key.Field]*  d, err := codec.NewRsaDecrypter(x); if err != nil { return nil, err }  m[y] = d
+//   }
+// and nothing else may write the map. Emits also the name of the map (the gate's second argument is tied to it).
+func c18KeyLoop(s *source, e *emitter, rel, fn, lean, leanMap string) {
+	fd := s.findFunc(rel, fn)
+	if fd == nil {
+		c18Fail(e, lean, "function "+fn+" not found in "+rel)
+		e.stringList(leanMap, "MISSING", []string{"MISSING"})
+		return
+	}
+	fail := func(msg string) {
+		c18Fail(e, lean, fn+": key loop: "+msg)
+		e.stringList(leanMap, "MISSING", []string{"MISSING"})
+	}
+	proj := map[string]string{"Fingerprint": "key.1", "KeyFile": "key.2"}
+	mapName := ""
+	var loop *ast.RangeStmt
+	for i, st := range fd.Body.List {
+		as, ok := st.(*ast.AssignStmt)
+		if !ok || as.Tok != token.DEFINE || len(as.Lhs) != 1 || len(as.Rhs) != 1 {
+			continue
+		}
+		call, ok := as.Rhs[0].(*ast.CallExpr)
+		if !ok || s.src(call.Fun) != "make" || len(call.Args) != 1 || s.src(call.Args[0]) != "map[string]codec.RsaDecrypter" {
+			continue
+		}
+		mapName = s.src(as.Lhs[0])
+		if i+1 < len(fd.Body.List) {
+			loop, _ = fd.Body.List[i+1].(*ast.RangeStmt)
+		}
+		break
+	}
+	if mapName == "" {
+		fail("no `m := make(map[string]codec.RsaDecrypter)` made for the call")
+		return
+	}
+	if loop == nil || s.src(loop.X) != "signature.PrivateKeys" || loop.Key == nil || s.src(loop.Key) != "_" || loop.Value == nil {
+		fail("the statement after the map is not `for _, key := range signature.PrivateKeys`")
+		return
+	}
+	v := s.src(loop.Value)
+	alias := map[string]string{}
+	resolve := func(x ast.Expr) string {
+		src := s.src(x)
+		if a, ok := alias[src]; ok {
+			return a
+		}
+		if strings.HasPrefix(src, v+".") {
+			return proj[strings.TrimPrefix(src, v+".")]
+		}
+		return ""
+	}
+	loaded := map[string]string{} // decrypter variable -> projection of the file it was loaded from
+	fileProj, fpProj := "", ""
+	pendingErr := false
+	for _, st := range loop.Body.List {
+		switch x := st.(type) {
+		case *ast.AssignStmt:
+			switch {
+			case x.Tok == token.DEFINE && len(x.Lhs) == 1 && len(x.Rhs) == 1 && resolve(x.Rhs[0]) != "":
+				alias[s.src(x.Lhs[0])] = resolve(x.Rhs[0])
+			case x.Tok == token.DEFINE && len(x.Lhs) == 2 && len(x.Rhs) == 1 && s.src(x.Lhs[1]) == "err":
+				call, ok := x.Rhs[0].(*ast.CallExpr)
+				if !ok || s.src(call.Fun) != "codec.NewRsaDecrypter" || len(call.Args) != 1 || resolve(call.Args[0]) == "" {
+					fail("unexpected statement " + s.src(st))
+					return
+				}
+				loaded[s.src(x.Lhs[0])] = resolve(call.Args[0])
+				pendingErr = true
+			case x.Tok == token.ASSIGN && len(x.Lhs) == 1 && len(x.Rhs) == 1:
+				ix, ok := x.Lhs[0].(*ast.IndexExpr)
+				if !ok || s.src(ix.X) != mapName || resolve(ix.Index) == "" || loaded[s.src(x.Rhs[0])] == "" || pendingErr || fpProj != "" {
+					fail("unexpected statement " + s.src(st))
+					return
+				}
+				fpProj, fileProj = resolve(ix.Index), loaded[s.src(x.Rhs[0])]
+			default:
+				fail("unexpected statement " + s.src(st))
+				return
+			}
+		case *ast.IfStmt:
+			if !pendingErr || x.Init != nil || x.Else != nil || s.src(x.Cond) != "err != nil" || len(x.Body.List) != 1 ||
+				s.src(x.Body.List[0]) != "return nil, err" {
+				fail("unexpected statement " + s.src(st))
+				return
+			}
+			pendingErr = false
+		default:
+			fail("unexpected statement " + s.src(st))
+			return
+		}
+	}
+	if fpProj == "" || pendingErr {
+		fail("no `" + mapName + "[…] = decrypter` after a checked load")
+		return
+	}
+	// nothing else writes the map
+	writes := 0
+	ast.Inspect(fd.Body, func(n ast.Node) bool {
+		if as, ok := n.(*ast.AssignStmt); ok {
+			for _, l := range as.Lhs {
+				if ix, ok := l.(*ast.IndexExpr); ok && s.src(ix.X) == mapName {
+					writes++
+				} else if s.src(l) == mapName {
+					writes++
+				}
+			}
+		}
+		return true
+	})
+	if writes != 2 {
+		fail(fmt.Sprintf("the map is written %d times (expected: made once, one store in the loop)", writes))
+		return
+	}
+	e.printf("/-- the key loading of `%s` (%s): a map made for the call, one store per key of `signature.PrivateKeys` in order, a failed load ends it -/\n", fn, rel)
+	e.printf("def %s {D : Type} (load : String → Option D) (keys : List (String × String)) : Option (List (String × D)) :=\n  keys.foldl (fun acc key => acc.bind fun m => (load %s).map fun d => m ++ [(%s, d)]) (some [])\n\n", lean, fileProj, fpProj)
+	e.stringList(leanMap, "the map `"+fn+"` fills (and hands to the gate)", []string{mapName})
 }
